@@ -429,6 +429,28 @@ def rule_r24(body, hits):
     return body[:start] + rep + body[cl + 1 + tail.end():]
 
 
+def rule_r25(body, hits):
+    """R25: `RECV.iter().any(|X| E)` is replaced by the definition of Iterator::any (short-circuiting search):
+         { let __an = RECV; let mut __a: usize = 0; let mut __found = false;
+           while __a < __an.len() { let X = &__an[__a]; __a += 1; if E { __found = true; break; } } __found }"""
+    m = mask(body)
+    mm = re.search(r"\.\s*iter\(\)\s*\.\s*any\(\s*\|", m)
+    if not mm:
+        raise AnchorLost("R25: no iter().any(..) found")
+    start = recv_start(m, mm.start())
+    recv = body[start:mm.start()].strip()
+    op = m.index("(", m.index("any", mm.start()))
+    cl = match_close(m, op)
+    cm = re.match(r"\s*\|([^|]*)\|\s*(.*)$", body[op + 1:cl], re.S)
+    if not cm:
+        raise AnchorLost("R25: any(|x| E) expected")
+    rep = ("{ let __an = %s%s; let mut __a: usize = 0; let mut __found = false; while __a < __an.len() "
+           "{ let %s = &__an[__a]; __a += 1; if %s { __found = true; break; } } __found }"
+           % ("" if recv.endswith(")") else "&", recv, cm.group(1).strip(), cm.group(2).strip().rstrip(",").strip()))
+    hits["R25"] = hits.get("R25", 0) + 1
+    return body[:start] + rep + body[cl + 1:]
+
+
 def apply_rules(body, rules, hits):
     for r in rules:
         if r not in RULES:
@@ -679,7 +701,7 @@ class Extractor:
                 hits["R19"] = hits.get("R19", 0) + 1
         for key, val in opts:
             if key == "prerules":
-                body = apply_rules(body, [r for r in val.split() if r not in ("R14", "R15", "R16", "R18", "R22", "R24")], hits)
+                body = apply_rules(body, [r for r in val.split() if r not in ("R14", "R15", "R16", "R18", "R22", "R24", "R25")], hits)
                 if "R16" in val.split():
                     at = [v for k, v in opts if k == "acctype"]
                     body = rule_r16(body, hits, at[0].strip() if at else None)
@@ -689,6 +711,8 @@ class Extractor:
                     body = rule_r22(body, hits)
                 if "R24" in val.split():
                     body = rule_r24(body, hits)
+                if "R25" in val.split():
+                    body = rule_r25(body, hits)
                 if "R14" in val.split():
                     body = rule_r14(body, hits)
                 if "R15" in val.split():
